@@ -1,5 +1,6 @@
 -- GENERATED. Root of the regenerated fact tables.
 import MpsGen.Alg
 import MpsGen.Hash
+import MpsGen.Pool
 import MpsGen.Protocols
 import MpsGen.Session
